@@ -41,6 +41,35 @@ class _Abort(BaseException):
     pass
 
 
+class Duck:
+    """a raw payload that is NOT a TypedValue but has attributes that look like one's (data_type / integrity / value)"""
+
+    def __init__(self, **kw):
+        self.__dict__.update(kw)
+
+    def __repr__(self):
+        return "Duck(%r)" % (self.__dict__,)
+
+
+def payload_int(value):
+    """the integer a (raw) payload built by run_impl.mkval carries, whatever Python type it was wrapped in"""
+    if isinstance(value, bool) or isinstance(value, int):
+        return value
+    if isinstance(value, str):
+        return int(value)
+    if isinstance(value, dict):
+        return value["value"]
+    if isinstance(value, list):
+        return value[0].value
+    if isinstance(value, Duck):
+        return value.value
+    return value.metadata["c"]          # ApprovalToken
+
+
+def _opt(names, k):
+    return "None" if k is None else f"(Some {names[k]})"
+
+
 def _guarded(fn, timeout_s):
     """common.call_with_watchdog(fn, timeout_s); when the watchdog gives up, an asynchronous exception is
     raised in the worker thread so that an executor that loops for ever does not keep spinning.
@@ -122,23 +151,40 @@ class C16(Check):
             "arguments, required_capabilities() before and between the connects; PortType.can_flow_to and require_flow_to are "
             "asked for every attempted connect with known ports. n//14 further cases put a wire into diagram.wires past connect "
             "(type / integrity mismatch, unknown ports): outside the property (monitor: connects and capabilities only), they tie "
-            "the executor's per-wire runtime checks to the model. non-trivial = at least one accepted wire or one handler "
-            "invocation; distinct by case content")
+            "the executor's per-wire runtime checks to the model. About 40% of the cases continue with a HISTORY on the same executor "
+            "(part of the model: case field `ops`): 1-3 further execute() calls, each with its own external inputs (kept / one dropped / "
+            "none / a fresh value for every unwired port / mislabelled / on a wired port / unknown module or port) and flag, preceded by "
+            "register_module calls that replace handlers (well-behaved, mislabelling, raising, wrong keys, unknown module), by a NEW "
+            "executor over the same diagram that gets the handlers of the current one except (usually) one, or - api:swap - "
+            "by stateful handlers that change their behaviour themselves; about a third of those executions repair everything after a "
+            "failure; the property is monitored on every execution with the handlers and inputs of that execution. About 35% of the "
+            "cases replace raw payloads (handler results and external inputs) by other Python types that are not TypedValues but "
+            "claim a label of their own: ApprovalToken(integrity=...), look-alike objects and dicts with data_type / integrity / value, "
+            "a list holding a TypedValue, str (model: RawClaim). Exhaustive also: for each of the 21 port types a look-alike "
+            "claiming each of the 21 labels and an ApprovalToken of each integrity, as external input and as handler output. "
+            "non-trivial = at least one accepted wire or one handler invocation; distinct by case content")
     LEVEL_TEXT = ("Coq theorems over all diagrams (any number of modules, ports, attempted wires), all handler oracles (raw, labelled, "
                   "mislabelled, raising, wrong key sets), all external inputs and both enforce_static_checks settings, about a "
                   "hand-written model of WiringDiagram.connect / required_capabilities and DiagramExecutor.execute: connect accepts "
                   "iff types equal and source integrity >= destination integrity; every input row seen by a handler or recorded in "
                   "the report is complete and typed; mislabelled outputs raise; the execution order is a permutation in topological "
-                  "order with each handler called exactly once; cycles / missing or duplicate sources / missing handlers raise "
-                  "WiringError and the fuelled loop never runs out of fuel; capabilities are the union. The model is tied to the code "
+                  "order with each handler called exactly once; in every execution (also a raising one) handlers are invoked in "
+                  "topological order; cycles / missing or duplicate sources / missing handlers raise "
+                  "WiringError, so does a wired port that is also fed from outside, and the fuelled loop never runs out of fuel; capabilities "
+                  "are the union; for every history of "
+                  "register_module / execute calls on one executor each execution equals that of a fresh executor with the handlers "
+                  "registered so far and satisfies all of the above. The model is tied to the code "
                   "by evaluating it in Coq on every generated diagram the implementation ran.")
-    LEVEL_NOTE = ("Trusts: Coq kernel+VM; the correspondence harness; payloads modelled as integers and handlers as deterministic, "
-                  "side-effect-free functions of their inputs that return a dict or raise; module/port names modelled by their "
+    LEVEL_NOTE = ("Trusts: Coq kernel+VM; the correspondence harness; payloads modelled as integers (plus the label a raw payload claims "
+                  "for itself) and handlers, within one execution, as deterministic side-effect-free functions of their inputs that "
+                  "return a dict or raise (between executions they may be replaced or change); module/port names modelled by their "
                   "insertion index. Axioms: none (Print Assumptions: closed).")
     TECHNIQUE = "Coq proof by invariant over the executor's scheduling loop + vm_compute correspondence against DiagramExecutor.execute"
-    TRUSTED = ["modelled not verified: payloads are integers; handlers are deterministic functions of their input dict that do not "
-               "mutate it and return a dict (or None) or raise; Python dict insertion order = list order; module and port names are "
-               "modelled by their insertion index",
+    TRUSTED = ["modelled not verified: payloads are integers, a raw payload of another Python type is the integer it wraps plus the data "
+               "type / integrity it claims for itself (RawClaim); within one execution handlers are deterministic functions of their "
+               "input dict that do not mutate it and return a dict (or None) or raise; a handler that behaves differently in a later "
+               "execution is modelled as a re-registration between the two executions; Python dict insertion order = list order; "
+               "module and port names are modelled by their insertion index",
                "the property (and its monitor) speaks of diagrams whose wires were created through WiringDiagram.connect; under that "
                "hypothesis the model's KeyError / per-wire 'Type mismatch' / 'Integrity violation' / 'Missing output' raises are "
                "unreachable (first three: theorem c16_runtime_wire_checks_never_fire). The correspondence exercises them on "
@@ -146,7 +192,7 @@ class C16(Check):
                "compared observations use the exception class only (accepted / WiringError; report / WiringError / handler's own "
                "exception / other); WiringError messages are read only for the input-distribution histogram"]
     ASSUMPTIONS = ["module names are unique (add_module enforces it) and each dict (ports, handler result, external inputs) has unique keys",
-                   "handlers are pure: same inputs, same result; no mutation of the inputs dict or the diagram during execute"]
+                   "within one execute() a handler does not mutate its inputs dict, the diagram or the executor"]
 
     # -- generation --------------------------------------------------------
     def _pt(self, rng, palette):
@@ -432,7 +478,179 @@ class C16(Check):
         # second pass (after all diagrams are drawn, so the diagrams themselves are those of earlier revisions): API variations
         for c in out:
             self._widen(rng, c)
+        # third pass (again after everything above was drawn): raw payloads of other Python types, and a history of further
+        # register_module / execute calls on the same executor
+        for c in out:
+            self._widen2(rng, c)
         return out
+
+    OBJ_SHAPES = ["token", "token", "duck", "duck", "dict", "tvlist", "str"]
+
+    def _obj(self, rng, v):
+        """a raw value -> the same payload wrapped in another Python type that is not a TypedValue; token / duck / dict / tvlist say
+        something about their own label (claimed data type d, claimed integrity i; None = says nothing)"""
+        shape = rng.choice(self.OBJ_SHAPES)
+        d = i = None
+        if shape == "token":
+            i = rng.randrange(3)
+        elif shape in ("duck", "dict"):
+            d, i = rng.choice([None] + list(range(7))), rng.choice([None, 0, 1, 2])
+        elif shape == "tvlist":
+            d, i = rng.randrange(7), rng.randrange(3)
+        return ["obj", shape, d, i, v[1]]
+
+    def _script_for(self, rng, md, cur):
+        """a handler script for a module with the port declarations md (None: a module that is not in the diagram)"""
+        if md is None:
+            return ["ret", []]
+        good = [[j, self._good_val(rng, pt)] for j, pt in enumerate(md["out"])]
+        rng.shuffle(good)
+        k = rng.random()
+        if k < 0.45 or (not md["out"] and k < 0.7):
+            return ["ret", good]
+        if k < 0.65:
+            it = rng.choice(good)
+            it[1] = self._bad_val(rng, md["out"][it[0]], ["type", "low", "high"])
+            return ["ret", good]
+        if k < 0.75:
+            return ["raise"]
+        if k < 0.85:
+            if good and rng.random() < 0.5:
+                good.pop(rng.randrange(len(good)))
+            else:
+                good.insert(rng.randint(0, len(good)), [len(md["out"]) + rng.randrange(2), ["raw", 0]])
+            return ["ret", good]
+        if cur is not None:
+            return copy.deepcopy(cur)
+        return ["ret", good] if md["out"] else ["none"]
+
+    def _ext_variant(self, rng, c, base):
+        """the external inputs of a later execution: those of the previous one, kept or changed"""
+        mods = c["mods"]
+        cc = {"mods": mods, "wires": c["wires"], "ext": copy.deepcopy(base)}
+        k = rng.random()
+        if k < 0.22:
+            return cc["ext"], "same"
+        if k < 0.47:
+            return cc["ext"], (self._mut_drop_ext(rng, cc) or "same").replace("mut:", "")
+        if k < 0.55:
+            return [], "none"
+        if k < 0.75:
+            # every input port without a wire gets a fresh admissible value
+            wired = {(w[2], w[3]) for w in accepted_wires(c)}
+            ext = []
+            for m, md in enumerate(mods):
+                ps = [[p, self._good_val(rng, pt, allow_higher=True)] for p, pt in enumerate(md["in"]) if (m, p) not in wired]
+                if ps:
+                    ext.append([m, ps])
+            rng.shuffle(ext)
+            return ext, "all-unwired-ports"
+        if k < 0.85:
+            return cc["ext"], (self._mut_ext_mislabel(rng, cc) or "same").replace("mut:", "")
+        if k < 0.94:
+            return cc["ext"], (self._mut_ext_on_wired(rng, cc) or "same").replace("mut:", "")
+        return cc["ext"], (self._mut_ext_unknown(rng, cc) or "same").replace("mut:", "")
+
+    def _gen_ops(self, rng, c):
+        mods = c["mods"]
+        n = len(mods)
+        hs = [md["h"] for md in mods]
+        ops, tags, ext_cur = [], [], c["ext"]
+        for _ in range(rng.choice([1, 1, 2, 2, 3])):
+            if rng.random() < 0.22:
+                # another executor over the same diagram: the handlers of the current one, except that (usually) one is left out
+                # and (sometimes) one behaves differently
+                have = [m for m in range(n) if hs[m] is not None]
+                leave = None
+                if have and rng.random() < 0.7:
+                    with_out = [m for m in have if mods[m]["out"]]
+                    leave = rng.choice(with_out if with_out and rng.random() < 0.8 else have)
+                ops.append(["new"])
+                old, hs = hs, [None] * n
+                for m in (have if rng.random() < 0.7 else have[::-1]):
+                    if m == leave:
+                        continue
+                    script = copy.deepcopy(old[m]) if rng.random() < 0.85 else self._script_for(rng, mods[m], old[m])
+                    ops.append(["reg", m, script])
+                    hs[m] = script
+                tags.append("later:new-executor" + ("-without-one-handler" if leave is not None else ""))
+                ext_cur, t = self._ext_variant(rng, c, ext_cur) if rng.random() < 0.3 else (copy.deepcopy(ext_cur), "same")
+                tags.append("later-ext:" + t)
+                ops.append(["exec", ext_cur, c["enforce"]])
+                continue
+            if rng.random() < 0.35:
+                # repair: a well-behaved handler for every module that declares outputs (or has a handler that does not behave),
+                # a fresh admissible value for every port without a wire
+                for m, md in enumerate(mods):
+                    good = hs[m] is not None and hs[m][0] in ("ret", "none") and all(
+                        k < len(md["out"]) and (v[0] != "lab" or v[1:3] == md["out"][k]) for k, v in (hs[m][1] if hs[m][0] == "ret" else [])
+                    ) and sorted(k for k, _v in (hs[m][1] if hs[m][0] == "ret" else [])) == list(range(len(md["out"])))
+                    if (md["out"] or hs[m] is not None) and not good:
+                        items = [[j, self._good_val(rng, pt)] for j, pt in enumerate(md["out"])]
+                        rng.shuffle(items)
+                        ops.append(["reg", m, ["ret", items]])
+                        hs[m] = ops[-1][2]
+                while True:
+                    ext_cur, t = self._ext_variant(rng, c, ext_cur)
+                    if t == "all-unwired-ports":
+                        break
+                tags.append("later-ext:" + t)
+                ops.append(["exec", ext_cur, c["enforce"]])
+                continue
+            for _ in range(rng.choice([0, 0, 1, 1, 2])):
+                m = rng.randrange(n) if rng.random() < 0.93 else n
+                script = self._script_for(rng, mods[m] if m < n else None, hs[m] if m < n else None)
+                ops.append(["reg", m, script])
+                if m < n:
+                    hs[m] = script
+            ext_cur, t = self._ext_variant(rng, c, ext_cur)
+            tags.append("later-ext:" + t)
+            ops.append(["exec", ext_cur, c["enforce"] if rng.random() < 0.85 else not c["enforce"]])
+        return ops, tags
+
+    def _widen2(self, rng, c):
+        r = rng.random
+        if r() < 0.4:
+            c["ops"], tags = self._gen_ops(rng, c)
+            c["tags"] = c["tags"] + sorted(set(tags))
+            if r() < 0.35 and any(o[0] == "reg" for o in c["ops"]):
+                c.setdefault("x", {})["swap"] = True     # stateful handlers instead of re-registration (where one is registered)
+        if r() < 0.35:
+            def conv(v):
+                return self._obj(rng, v) if v[0] == "raw" and r() < 0.6 else v
+            scripts = [md["h"] for md in c["mods"]] + [o[2] for o in c.get("ops") or [] if o[0] == "reg"]
+            exts = [c["ext"]] + [o[1] for o in c.get("ops") or [] if o[0] == "exec"]
+            for h in scripts:
+                if h and h[0] == "ret":
+                    for it in h[1]:
+                        it[1] = conv(it[1])
+            for ext in exts:
+                for e in ext:
+                    for it in e[1]:
+                        it[1] = conv(it[1])
+            c["tags"] = c["tags"] + ["payload:other-python-types"]
+        if r() < 0.12 and not c.get("forced"):
+            # an input port with a wire is ALSO given a value from outside, and the very value the wire is going to deliver (as
+            # when the recorded inputs of a report are fed back in): still two sources.  Computable here when the upstream module has
+            # no inputs of its own (its output payloads are those of its script).
+            cand = []
+            for (sm, sp, dm, dp) in accepted_wires(c):
+                ms = c["mods"][sm]
+                if ms["in"] or not ms["h"] or ms["h"][0] != "ret":
+                    continue
+                v = next((v for k, v in ms["h"][1] if k == sp), None)
+                if v is None or v[0] == "obj" or (v[0] == "lab" and v[1:3] != ms["out"][sp]):
+                    continue
+                cand.append((sm, sp, dm, dp, v[1] if v[0] == "raw" else v[3]))
+            if cand:
+                sm, sp, dm, dp, payload = rng.choice(cand)
+                spt, dpt = c["mods"][sm]["out"][sp], c["mods"][dm]["in"][dp]
+                val = ["raw", payload] if (spt == dpt and r() < 0.5) else ["lab", spt[0], spt[1], payload]
+                for e in c["ext"]:
+                    if e[0] == dm:
+                        e[1][:] = [it for it in e[1] if it[0] != dp]
+                self._add_ext(c, dm, dp, val)
+                c["tags"] = c["tags"] + ["external-on-wired-port-equal-to-the-delivered-value"]
 
     def _force_wire(self, rng, c):
         """a wire written into diagram.wires directly that connect would have refused, from a module that runs before the
@@ -460,7 +678,8 @@ class C16(Check):
         c["forced"] = [[s, sp, d, len(mods[d]["in"]) - 1]]
         return "forced:" + kind
 
-    X_KEYS = ["names", "ctor", "defaults", "dup", "regbad", "early", "rereg", "regrev", "again", "pre", "extempty", "positional", "acc"]
+    X_KEYS = ["names", "ctor", "defaults", "dup", "regbad", "early", "rereg", "regrev", "again", "pre", "extempty", "positional", "acc",
+              "swap"]
 
     def _widen(self, rng, c):
         """other ways of using the same public API on the same diagram; all of them are transparent to the model (coq_case
@@ -517,6 +736,15 @@ class C16(Check):
                 out.append({"mods": [{"in": [s], "out": [], "caps": [], "h": ["ret", []]}],
                             "wires": [], "ext": [[0, [[0, ["lab", d[0], d[1], 3]]]]], "enforce": True,
                             "tags": ["exhaustive:coerce-input"]})
+        # raw values that claim a label of their own, as external input and as handler output of a port of every type:
+        # a look-alike object claiming every label, and an ApprovalToken of every integrity
+        for s in pts:
+            for claim in [["duck", d[0], d[1]] for d in pts] + [["token", None, i] for i in range(3)]:
+                v = ["obj"] + claim + [4]
+                out.append({"mods": [{"in": [s], "out": [s], "caps": [], "h": ["ret", [[0, v]]]},
+                                     {"in": [[s[0], 0]], "out": [], "caps": [], "h": ["ret", []]}],
+                            "wires": [[0, 0, 1, 0]], "ext": [[0, [[0, copy.deepcopy(v)]]]], "enforce": True,
+                            "tags": ["exhaustive:raw-value-claiming-a-label"]})
         return out
 
     # -- implementation ----------------------------------------------------
@@ -547,12 +775,29 @@ class C16(Check):
             return W.PortType(DT[p[0]], IL[p[1]])
 
         def tv_codes(t):
-            return [DT.index(t.data_type), IL.index(t.integrity), t.value]
+            return [DT.index(t.data_type), IL.index(t.integrity), payload_int(t.value)]
 
         def mkval(v, s=0):
             if v[0] == "raw":
                 return v[1] + s
-            return R.TypedValue(DT[v[1]], IL[v[2]], v[3] + s)
+            if v[0] == "lab":
+                return R.TypedValue(DT[v[1]], IL[v[2]], v[3] + s)
+            # ["obj", shape, d, i, c]: a raw value (not a TypedValue) of another Python type that says something about
+            # its own label: operon's ApprovalToken (integrity field), a look-alike object, a dict, a list holding a TypedValue
+            _o, shape, dd, ii, c = v
+            c += s
+            if shape == "token":
+                return T.ApprovalToken(request_hash="h%d" % c, issuer="harness", integrity=IL[ii], metadata={"c": c})
+            if shape == "str":
+                return str(c)
+            if shape == "tvlist":
+                return [R.TypedValue(DT[dd], IL[ii], c)]
+            attrs = {"value": c}
+            if dd is not None:
+                attrs["data_type"] = DT[dd]
+            if ii is not None:
+                attrs["integrity"] = IL[ii]
+            return Duck(**attrs) if shape == "duck" else attrs
 
         def snapshot(inputs, nin):
             row, present = [], 0
@@ -611,25 +856,27 @@ class C16(Check):
         rec = {"calls": [], "returned": []}
         regbad = []
 
-        def mk(i, md):
-            nin = len(md["in"])
-
+        def mk(i, nin, box):
+            # box["h"]: the script the handler follows when it is invoked (a stateful handler changes it between executions)
             def h(inputs):
                 row, extra = snapshot(inputs, nin)
                 rec["calls"].append((i, row, extra))
-                if md["h"][0] == "raise":
+                script = box["h"]
+                if script[0] == "raise":
                     raise HandlerBoom(i)
-                if md["h"][0] == "none":        # a handler without a return statement: `handler(inputs) or {}`
+                if script[0] == "none":        # a handler without a return statement: `handler(inputs) or {}`
                     rec["returned"].append((i, []))
                     return None
                 s = sum((p + 1) * t[2] for p, t in enumerate(row) if t is not None)
-                items = [(k, v) for k, v in md["h"][1]]
+                items = [(k, v) for k, v in script[1]]
                 rec["returned"].append((i, items))
                 return {outn(k): mkval(v, s) for k, v in items}
             return h
 
         def stale(_inputs):
             raise RuntimeError("a handler that was replaced by a later register_module was invoked")
+
+        boxes = {}       # module index -> box of the handler registered last (on whichever executor was built last)
 
         def make_executor():
             ex = R.DiagramExecutor(d)
@@ -639,7 +886,8 @@ class C16(Check):
             for i, md in regs:
                 if x.get("rereg"):
                     ex.register_module(mn(i), stale)
-                ex.register_module(mn(i), mk(i, md))
+                boxes[i] = {"h": md["h"]}
+                ex.register_module(mn(i), mk(i, len(md["in"]), boxes[i]))
             if x.get("regbad"):
                 try:
                     ex.register_module(mn(n), stale)
@@ -708,16 +956,17 @@ class C16(Check):
         if ex is None:
             ex = make_executor()
 
-        def execute_once(ex, ext_case):
+        def execute_once(ex, ext_case, enforce=None):
+            enforce = case["enforce"] if enforce is None else enforce
             rec["calls"], rec["returned"] = [], []
             ext = {mn(m): {inn(p): mkval(v) for p, v in ps} for m, ps in ext_case}
             arg = ext if (ext or x.get("extempty")) else None
             report, code, kind = None, 0, 0
             try:
                 if x.get("positional"):
-                    report = _guarded(lambda: ex.execute(arg, case["enforce"]), 1.0)
+                    report = _guarded(lambda: ex.execute(arg, enforce), 1.0)
                 else:
-                    report = _guarded(lambda: ex.execute(arg, enforce_static_checks=case["enforce"]), 1.0)
+                    report = _guarded(lambda: ex.execute(arg, enforce_static_checks=enforce), 1.0)
             except W.WiringError as e:
                 code, kind = 1, _msg_code(str(e), EXEC_MSG, 16)
             except HandlerBoom:
@@ -752,6 +1001,7 @@ class C16(Check):
             return tail, tr
 
         more = []
+        main_boxes = None
         if x.get("pre") and case["ext"]:
             # an execution without the external inputs first (usually rejected: missing sources); it must not leak into the next
             _t, tr0 = execute_once(ex, [])
@@ -759,6 +1009,7 @@ class C16(Check):
         tail, main = execute_once(ex, case["ext"])
         again = x.get("again", 0)
         deviating = None
+        main_boxes = dict(boxes)
         for k in range(2 if again == 3 else (1 if again else 0)):
             ex2 = ex if again in (1, 3) else make_executor()
             t2, tr2 = execute_once(ex2, case["ext"])
@@ -767,15 +1018,46 @@ class C16(Check):
             more.append((what, case["ext"], tr2))
             if t2 != tail and deviating is None:
                 deviating = t2
+        # further register_module / execute calls on the SAME executor: other handlers, other external inputs, other flag.
+        # (x["swap"]: a handler that is registered already changes its behaviour itself instead of being replaced.)
+        boxes.clear()
+        boxes.update(main_boxes)
+        ops_obs, ops_tr = [], []
+        for op in case.get("ops") or []:
+            if op[0] == "new":          # another executor over the same diagram, used from here on; nothing registered yet
+                ex = R.DiagramExecutor(d)
+                boxes.clear()
+                ops_obs.append([-7])
+                ops_tr.append(("new",))
+            elif op[0] == "reg":
+                _r, m, script = op
+                if x.get("swap") and m in boxes:
+                    boxes[m]["h"], r = script, 0
+                else:
+                    box = {"h": script}
+                    try:
+                        ex.register_module(mn(m), mk(m, len(mods[m]["in"]) if m < n else 0, box))
+                        boxes[m], r = box, 0
+                    except W.WiringError:
+                        r = 1
+                    except Exception:
+                        r = 99
+                ops_obs.append([-5, r])
+                ops_tr.append(("reg", m, script, r))
+            else:
+                _e, ext_k, enf = op
+                t_k, tr_k = execute_once(ex, ext_k, enf)
+                ops_obs += [[-6]] + t_k
+                ops_tr.append(("exec", ext_k, enf, tr_k))
         stable = (modules_intact() and list(d.wires) == wires_final
                   and sorted(CAP.index(c) for c in d.required_capabilities()) == caps)
         # the model's observation is that of the main execution; a repeated execution that observes something else is reported
         # in its place (marked), so that the deviation from the (functional) model surfaces as a correspondence mismatch
-        obs = [connects, caps] + (tail if deviating is None else deviating + [[-777]])
+        obs = [connects, caps, [-6]] + (tail if deviating is None else deviating + [[-777]]) + ops_obs
         if not stable:      # building is over before the first execute(): executing must not alter the diagram
             obs.append([-778])
         trace = {"connects": connects, "connect_kinds": ckinds, "wires_ok": wires_ok, "caps": caps, "caps_seen": caps_seen,
-                 "flow_q": flow_q, "dup": dup_res, "regbad": regbad, "stable": stable, "more": more}
+                 "flow_q": flow_q, "dup": dup_res, "regbad": regbad, "stable": stable, "more": more, "ops": ops_tr}
         trace.update(main)
         return obs, trace
 
@@ -787,6 +1069,8 @@ class C16(Check):
         def cval(v):
             if v[0] == "raw":
                 return f"(Raw {cz(v[1])})"
+            if v[0] == "obj":
+                return f"(RawClaim {_opt(DTN, v[2])} {_opt(ILN, v[3])} {cz(v[4])})"
             return f"(Lab (mkTV {DTN[v[1]]} {ILN[v[2]]} {cz(v[3])}))"
 
         def ch(h):
@@ -801,9 +1085,13 @@ class C16(Check):
         cms = clist([ctuple(clist([cpt(p) for p in md["in"]]), clist([cpt(p) for p in md["out"]]),
                             clist([CAPN[c] for c in md["caps"]]), ch(md["h"])) for md in case["mods"]])
         ws = clist([ctuple(*[cnat(x) for x in w]) for w in case["wires"]])
-        ext = clist([ctuple(cnat(m), clist([ctuple(cnat(p), cval(v)) for p, v in ps])) for m, ps in case["ext"]])
+        def cext(e):
+            return clist([ctuple(cnat(m), clist([ctuple(cnat(p), cval(v)) for p, v in ps])) for m, ps in e])
+
         forced = clist([ctuple(*[cnat(v) for v in w]) for w in case.get("forced") or []])
-        return "(" + ctuple(cms, ws, forced, ext, cbool(case["enforce"])) + " : case)"
+        ops = clist(["SNew" if o[0] == "new" else f"SReg {cnat(o[1])} {ch(o[2])}" if o[0] == "reg" else f"SExec {cext(o[1])} {cbool(o[2])}"
+                     for o in case.get("ops") or []])
+        return "(" + ctuple(cms, ws, forced, cext(case["ext"]), cbool(case["enforce"]), ops) + " : case)"
 
     # -- the property, on the implementation's trace ------------------------
     def monitor(self, case, obs, trace):
@@ -861,12 +1149,33 @@ class C16(Check):
             v = self._monitor_execution(case, ext, tr, acc, " [" + what + "]")
             if v:
                 return v
+        # the further executions on the same executor, each with the handlers registered by then and its own external inputs
+        hs = [md["h"] for md in mods]
+        k, hist = 1 + len(trace.get("more") or []), [ERRNAME.get(trace["kind"], trace["kind"])]
+        which = "the same executor"
+        for o in trace.get("ops") or []:
+            if o[0] == "new":
+                hs, which = [None] * n, "another executor over the same diagram"
+                continue
+            if o[0] == "reg":
+                if o[1] < n and o[3] == 0:
+                    hs = hs[:o[1]] + [o[2]] + hs[o[1] + 1:]
+                continue
+            k += 1
+            where = (f" [execute() #{k}, on {which}, external inputs {o[1]}, enforce_static_checks={o[2]}, handlers {hs}; "
+                     f"the earlier executions ended with {hist}]")
+            v = self._monitor_execution(case, o[1], o[3], acc, where, hs)
+            if v:
+                return v
+            hist.append(ERRNAME.get(o[3]["kind"], o[3]["kind"]))
         return None
 
-    def _monitor_execution(self, case, ext, trace, acc, where):
-        """the property's conjuncts about ONE execution (it speaks of every execution of an accepted diagram)"""
+    def _monitor_execution(self, case, ext, trace, acc, where, hs=None):
+        """the property's conjuncts about ONE execution (it speaks of every execution of an accepted diagram); hs: the handler
+        scripts registered at that time (default: the case's)"""
         mods = case["mods"]
         n = len(mods)
+        hs = [md["h"] for md in mods] if hs is None else hs
         code, kind = trace["code"], trace["kind"]
         wiring_error = code == 1
 
@@ -901,8 +1210,8 @@ class C16(Check):
         given = {(m, p) for m, ps in ext for p, _v in ps}
         dup = [k for k, c in wired.items() if c > 1]
         missing = [(m, p) for m in range(n) for p in range(len(mods[m]["in"])) if (m, p) not in wired and (m, p) not in given]
-        nohandler = [m for m in range(n) if mods[m]["out"] and mods[m]["h"] is None]
-        raised = any(mods[m]["h"] == ["raise"] for (m, _r, _e) in trace["calls"])
+        nohandler = [m for m in range(n) if mods[m]["out"] and hs[m] is None]
+        raised = any(hs[m] == ["raise"] for (m, _r, _e) in trace["calls"])
         if dup or missing or nohandler:
             if not (wiring_error or (code == 20 and raised)):
                 return Violation("C16/unschedulable-not-rejected",
@@ -911,6 +1220,17 @@ class C16(Check):
         if has_cycle(n, acc):
             if not (wiring_error or (code == 20 and raised)):
                 return Violation("C16/cycle-not-rejected", f"cyclic diagram: execute ended with {ERRNAME.get(kind, kind)}{where}")
+        # 4. "only after all modules feeding it" -- in every execution, also one that raises later: when a handler is invoked, the
+        # handler of every module wired into that module has been invoked before.  (Not demanded for an input port that was IN
+        # ADDITION given a value from outside in this execution: that port has two sources, the execution has to end in an error.)
+        invoked = set()
+        for (m, _row, _extra) in trace["calls"]:
+            for (sm, _sp, dm, dp) in acc:
+                if dm == m and sm not in invoked and (dm, dp) not in given and hs[sm] is not None:
+                    return Violation("C16/ran-before-its-source",
+                                     f"the handler of module {m} was invoked before module {sm}, which feeds its input port {dp}; "
+                                     f"invocations {[c[0] for c in trace['calls']]}, execute ended with {ERRNAME.get(kind, kind)}{where}")
+            invoked.add(m)
         # 2./4. a successful execution
         if code == 0:
             order = trace["order"]
@@ -921,7 +1241,7 @@ class C16(Check):
                 if pos[sm] >= pos[dm]:
                     return Violation("C16/not-topological", f"module {dm} ran before its source {sm}: {order}{where}")
             for m in range(n):
-                if counts.get(m, 0) != (1 if mods[m]["h"] is not None else 0):
+                if counts.get(m, 0) != (1 if hs[m] is not None else 0):
                     return Violation("C16/not-each-module-once", f"handler of module {m} invoked {counts.get(m, 0)} times{where}")
             for (m, row, extra, outs) in trace["runs"]:
                 v = row_bad(m, row, extra)
@@ -930,6 +1250,12 @@ class C16(Check):
                 for k, t in outs:
                     if k >= len(mods[m]["out"]) or t[:2] != mods[m]["out"][k]:
                         return Violation("C16/mislabelled-output-accepted", f"module {m} output {k} recorded with label {t[:2]}{where}")
+        both = sorted(k for k in wired if k in given)
+        if both and not (wiring_error or (code == 20 and raised)):
+            # duplicate sources, second kind: a wire into the port AND a value from outside
+            return Violation("C16/two-sources-not-rejected",
+                             f"input ports {both} have a wire and were also given a value from outside (two sources): execute ended "
+                             f"with {ERRNAME.get(kind, kind)} after {len(trace['calls'])} handler calls{where}")
         return None
 
     def nontrivial(self, case, obs, trace):
@@ -947,8 +1273,18 @@ class C16(Check):
             ks.append("duplicate-add_module=" + {0: "accepted", 1: "WiringError"}.get(r, "other-exception"))
         for r in trace.get("regbad") or []:
             ks.append("register-unknown-module=" + {0: "accepted", 1: "WiringError"}.get(r, "other-exception"))
-        if trace.get("more"):
-            ks.append("executions=" + str(1 + len(trace["more"])))
+        nex = 1 + len(trace.get("more") or []) + sum(1 for o in trace.get("ops") or [] if o[0] == "exec")
+        if nex > 1:
+            ks.append("executions=" + str(nex))
+        prev = trace.get("kind")
+        for o in trace.get("ops") or []:
+            if o[0] == "new":
+                continue
+            if o[0] == "reg":
+                ks.append("later-register=" + {0: "ok", 1: "WiringError"}.get(o[3], "other-exception"))
+            else:
+                ks.append("later-execute:" + ("report" if prev == 0 else "failure") + "->" + ("report" if o[3]["kind"] == 0 else "failure"))
+                prev = o[3]["kind"]
         if "code" in trace:
             ks.append("execute=" + ERRNAME.get(trace["kind"], str(trace["kind"])))
             na = sum(1 for r in trace["connects"] if r == 0)
@@ -965,6 +1301,8 @@ class C16(Check):
         c = copy.deepcopy(case)
         c["wires"] = common.shrink_list(c["wires"], lambda ws: pred({**c, "wires": ws}))
         c["ext"] = common.shrink_list(c["ext"], lambda es: pred({**c, "ext": es}))
+        if c.get("ops"):
+            c["ops"] = common.shrink_list(c["ops"], lambda os: pred({**c, "ops": os}))
         for k in list(c.get("x") or {}):
             x2 = {k2: v for k2, v in c["x"].items() if k2 != k}
             try:
